@@ -34,7 +34,8 @@
     (key _create_parameter@libsbml: this discharges what contracts/c10_c11_io.py assumed) and the cross-function obligation of
     `_create_bound`: `_model_to_sbml` creates the five shared parameters under the ids `_create_bound` hands out with
     config.lower_bound / config.upper_bound / 0 / -inf / +inf (key _model_to_sbml@default-parameters, restricted path: see there).
-(3) `_parse_annotation_info` (regular expression assumed) and the collection logic of `_parse_annotations`: see the section.
+(3) `_parse_annotation_info` (regular expression assumed) and the collection logic of `_parse_annotations`: see the section; the
+    ORDER of the identifiers (first occurrence) is in contracts/c10_ann_order.py.
 (4) the reader's flux-bound decision sits in the middle of the 500-line `_sbml_to_model` (inside the loop over reactions): there
     is no way to start the symbolic execution at a statement inside a function without an engine extension - left out.
 
@@ -912,6 +913,7 @@ MUTANTS = """
  Mc  _parse_annotations: duplicate test dropped (`if True:`)                            loop#1/inv-preserve.6 sat (duplicates in the list)
  Md  _parse_annotations: range(1, n)                                                    loop#1/inv-preserve.1 sat
  Me  _parse_annotations: annotation[identifier] = provider                              loop#1/inv-preserve.1/.3/.4 unknown
+ Mh  _parse_annotations: getResourceURI(0) instead of (k) [key @order]                 see the run: log / nothing-dropped clauses
  Mf  _parse_annotation_info: isupper test inverted                                      case match: post.1 sat
  Mg  _parse_annotation_info: provider not lowered                                       case match: post.1 sat
 """
